@@ -443,6 +443,16 @@ def eor_cases():
     return out
 
 
+def near_eor_cases():
+    """Well-formed UPDATEs that carry no route but are not End-of-RIB markers (RFC 4724 2: only the two exact forms are)."""
+    base = [w.encode_attr(w.ORIGIN, b'\x00'), w.encode_attr(w.AS_PATH, w.encode_as_path([(2, [65002])], True))]
+    return [
+        ('attributes-only', w.encode_update(attrs=base)),
+        ('unknown-nontransitive-only', w.encode_update(attrs=[w.encode_attr(0x9A, b'\xaa', flags=w.F_OPTIONAL)])),
+        ('mp-unreach-empty-plus-attribute', w.encode_update(attrs=[w.encode_attr(w.MED, bytes(4)), w.encode_attr(w.MP_UNREACH, w.encode_mp_unreach(2, 1, [], False))])),
+    ]
+
+
 _W = {}
 
 
@@ -502,6 +512,15 @@ def worker(args):
                     res['viol'][f'eor:{name}'] = (f'EOR for {fam} reported as {msg}', {'session': sidx, 'eor': name}, 1)
             except Exception as e:  # noqa: BLE001
                 res['viol'][f'eor-exception:{type(e).__name__}'] = (f'{name}: {e}', {'session': sidx, 'eor': name}, 1)
+        if s['asn4']:
+            for name, body in near_eor_cases():
+                res['exec'] += 1
+                try:
+                    msg, table, is_eor = observe(n, neg, enc, body)
+                    if is_eor or 'eor' in msg:
+                        res['viol'][f'near-eor-reported-as-eor:{name}'] = (f'UPDATE {body.hex()} ({name}) is not an End-of-RIB marker but was reported as {msg}', {'session': sidx, 'near_eor': name}, 1)
+                except Exception as e:  # noqa: BLE001
+                    res['viol'][f'near-eor-exception:{name}:{type(e).__name__}'] = (f'{name}: {type(e).__name__}: {e}', {'session': sidx, 'near_eor': name}, 1)
     res['outcomes'] = list(res['outcomes'])
     return res
 
@@ -576,6 +595,16 @@ def replay(case):
                 got = msg.get('eor')
                 ok = is_eor and got is not None and NAMEFAM.get(f'{got.get("afi")} {got.get("safi")}') == fam
                 return [] if ok else [{'signature': f'eor:{name}', 'what': str(msg)}]
+        return []
+    if 'near_eor' in case:
+        for name, body in near_eor_cases():
+            if name == case['near_eor']:
+                try:
+                    msg, table, is_eor = observe(n, neg, enc, body)
+                    if is_eor or 'eor' in msg:
+                        return [{'signature': f'near-eor-reported-as-eor:{name}', 'what': str(msg)}]
+                except Exception as e:  # noqa: BLE001
+                    return [{'signature': f'near-eor-exception:{name}:{type(e).__name__}', 'what': str(e)}]
         return []
     c = _from_json(case['case'])
     pid = (lambda i: i) if ap else (lambda i: None)
